@@ -32,19 +32,17 @@ structure Connector where
 
 /-! ## rendering -/
 
-def isDigit (c : Char) : Bool := '0' ≤ c && c ≤ '9'
+open Varpulis.Expand (isDigit digitVal digitsVal fmtNat canonDigits)
+
 def isAlpha (c : Char) : Bool := ('a' ≤ c && c ≤ 'z') || ('A' ≤ c && c ≤ 'Z')
 def isIdStart (c : Char) : Bool := isAlpha c || c == '_'
 def isIdChar (c : Char) : Bool := isAlpha c || isDigit c || c == '_'
-
-def digitsVal (ds : List Char) : Nat := ds.foldl (fun acc c => acc * 10 + (c.toNat - 48)) 0
 
 def i64Max : Nat := 9223372036854775807
 
 /-- `v.parse::<i64>().is_ok_and(|i| i >= 0 && i.to_string() == v)`: decimal digits, no sign, no
 leading zero, at most `i64::MAX` -/
-def isCanonInt (v : Text) : Bool :=
-  !v.isEmpty && v.all isDigit && (v == ['0'] || v.head? != some '0') && digitsVal v ≤ i64Max
+def isCanonInt (v : Text) : Bool := canonDigits v && digitsVal v ≤ i64Max
 
 /-- `escape_vpl_string` -/
 def escape : Text → Text
@@ -245,12 +243,6 @@ def connectorDecl (s : Text) : Option (Decl × Text) :=
             match paramsGo (r4.length + 1) r4 with
             | some (ps, r5) => (lit ")" (skip r5)).map fun r6 => ({ name := name, ctype := ty, params := ps }, r6)
             | none => (lit ")" r4).map fun r6 => ({ name := name, ctype := ty, params := [] }, r6)
-
-/-- `Nat::to_string` -/
-def natDigits : Nat → Nat → List Char
-  | 0, _ => []
-  | fuel + 1, n => if n < 10 then [Char.ofNat (48 + n)] else natDigits fuel (n / 10) ++ [Char.ofNat (48 + n % 10)]
-def fmtNat (n : Nat) : Text := natDigits (n + 1) n
 
 /-- the string the runtime hands to the connector for a parsed parameter (`None`: not convertible
 exactly in this model — floats and durations are never rendered unquoted after the fix) -/
